@@ -14,15 +14,21 @@ DRIVERS = ["drv_revise"]
 RULE = ("generated 2D/3D networks (directions, distances, angles, azimuths, slope distances, zenith angles, height "
         "differences, vectors; stdev varied against sigma-apr) with injected defects: isolated point, point with one "
         "determining element, single-direction station, two directions to one target, one usable + one unusable direction "
-        "target, observation to an unknown id, correlated clusters (<cov-mat> band 1..n-1 on <obs>, <height-differences>, "
+        "target, direction sets with REPEATED targets (reading patterns A A B, A B A, B A A, A A B B, A B C A, A A B C) with "
+        "a gross / small blunder in the first reading of the repeated target, in a later one, in the reading of another "
+        "target, or none, observation to an unknown id, correlated clusters (<cov-mat> band 1..n-1 on <obs>, <height-differences>, "
         "<vectors>, rows shuffled, linear observations disturbed so that the weights matter), "
         "blunders of positional size f*tol-abs (f in 0.3 … 1-1e-5, 1+1e-5 … 30) x tol-abs in {10,100,1000,5000}; "
         "in-process: with and without Acord2; end-to-end: x 4 algorithms.  non-trivial = at least one point or "
         "observation excluded; distinct by the text of the .gkf")
 LEVEL_TEXT = ("Lean 4 theorems (all networks, unbounded) about an executable model of LocalNetwork's revision and "
               "absolute-term exclusion, whose requirement table, absolute-term formulas, comparison operator, consulted "
-              "vector and reason codes are regenerated from the C++ on every run: exclusion iff one of the stated reasons "
-              "(sound and complete), the tree's absolute-term test characterised exactly (entry consulted, factor "
+              "vector, reason codes AND the loop of revision_observations() that counts the targets of a direction set "
+              "(loop body as a term of a small statement language over std::set<PointID> targets / active_directions, and the "
+              "test active_directions < 2) are regenerated from the C++ on every run: the loop as coded counts the distinct "
+              "targets having at least one active reading, for every order of the readings and every pattern of passive "
+              "readings; the requirement table asks the same of both ends of every two-ended observation type; "
+              "exclusion iff one of the stated reasons (sound and complete, repeated readings included), the tree's absolute-term test characterised exactly (entry consulted, factor "
               "sigma-apr/stdev, strict comparison; C14-F1 = 'coincides with the positional misclosure iff the factor is 1'), "
               "state after the exclusions = revised input with the excluded items deleted (deletion defined on the input, "
               "including rows/columns of correlated covariance blocks; stable), and the assembly loop / covariance blocks "
@@ -37,7 +43,9 @@ LEVEL_NOTE = ("Trusted: Lean kernel; the statements in Props/C14.lean including 
               "assembly loop `assemble`, C05/C01) is a named hypothesis of C14_results_equal_deletion and is checked here "
               "numerically only.")
 TECHNIQUE = "Lean 4 proof over a model partly regenerated from the source (translator) + model/implementation correspondence + end-to-end oracle"
-TRUSTED = ["tools/gen/c14_revision.py: regex/mini-parser translator of local_revision.{h,cpp} and TestAbsTermVisitor",
+TRUSTED = ["tools/gen/c14_revision.py: regex/mini-parser translator of local_revision.{h,cpp}, TestAbsTermVisitor and the "
+           "StandPoint loop of revision_observations (interpreter TStmt.run / TCond.eval in Model/ReviseTypes.lean: std::set as a "
+           "duplicate-free list in insertion order)",
            "specification tables Gama.Rev.Spec.* in lean/Gama/Model/ReviseSpec.lean (part of the statements)"]
 MODELLED = ["removals for numerical reasons (singular_coords, huge covariances in vyrovnani_, null_space) belong to C20; "
             "cases in which they fire are counted and left out of the comparison",
@@ -489,7 +497,8 @@ def gen_nets(ctx, n_rev, n_e2e):
     fams = [["isolated"], ["one_element"], ["single_dir"], ["dup_dir"], ["unknown_to"], ["blunder"], ["blunder2"],
             ["blunder_w"], ["blunder_w"], ["angle_fs_missing"], ["zangle_mid"], ["isolated", "single_dir", "blunder2"], [],
             ["single_dir_passive"], ["single_dir_passive", "blunder"], ["corr", "unknown_to"], ["corr", "one_element"], ["corr", "single_dir"], ["corr", "angle_fs_missing"],
-            ["corr", "unknown_to", "dup_dir"], ["corr", "one_element", "unknown_to"]]
+            ["corr", "unknown_to", "dup_dir"], ["corr", "one_element", "unknown_to"],
+            ["rep_dir"], ["rep_dir"], ["rep_dir"], ["rep_dir"], ["rep_dir"], ["rep_dir"], ["rep_dir", "unknown_to"], ["rep_dir", "isolated"]]
     for k in range(n_e2e):
         want = fams[k] if k < len(fams) else None
         nets.append((c14_nets.make_case(ctx.rng, want=want), True, True))
@@ -520,6 +529,9 @@ def check_nets(ctx, corr, nets, algs, label="net"):
                 corr.count("hom_vectors_compared")
             for d in net.get("defects", []):
                 corr.count("defect_" + d[0])
+                if d[0] == "rep_dir":
+                    gross = any(b.get("reading") is not None and b["f"] > 1 for b in net.get("blunders", []))
+                    corr.count("rep_dir_%s_%s" % (d[3], "gross" if gross else "small"))
             if r["crash"]:
                 corr.fail("revision harness crashed (sanitizer)", payload(net, acord), "LocalNetwork", r["crash"][1])
                 continue
@@ -568,6 +580,8 @@ def correspond(ctx, corr):
         corr.inconclusive.append("no correlated cluster (band > 0) lost a row/column in the end-to-end deletion comparison")
     if not corr.stats.get("hom_vectors_compared", 0):
         corr.inconclusive.append("the homogenised vector was never compared (no network without correlations reached the abs-term op)")
+    if not corr.stats.get("rep_dir_firstA_gross", 0) or not corr.stats.get("rep_dir_laterA_gross", 0) + corr.stats.get("rep_dir_B_gross", 0):
+        corr.inconclusive.append("no direction set with a repeated target whose first (resp. a later / another) reading is a gross blunder")
     if len(corr.nontrivial) < 0.3 * corr.evaluations:
         corr.inconclusive.append("fewer than 30 % of the networks had an exclusion")
 
@@ -577,7 +591,7 @@ def search(ctx, broken, corr):
     c2 = Corr()
     nets = [(c14_nets.boundary_case(op=op), True, True) for op in ("eq", "above", "below")]
     nets += [(m, True, ["gso"]) for m in c14_nets.matrix_cases()]
-    fams = [["dup_dir"], ["single_dir"], ["single_dir_passive"], ["isolated"], ["one_element"], ["blunder"], ["blunder2"], ["unknown_to"],
+    fams = [["rep_dir"], ["dup_dir"], ["single_dir"], ["single_dir_passive"], ["isolated"], ["one_element"], ["blunder"], ["blunder2"], ["unknown_to"],
             ["angle_fs_missing"], ["blunder_w"], ["zangle_mid"]]
     for k in range(ctx.size(140, 600)):
         dim = 3 if k % 3 == 2 else None
